@@ -103,8 +103,18 @@ func genHolePair(t *rapid.T, cx *h.Ctx, disjointMembers bool, stats *gen.Stats) 
 	if rapid.Bool().Draw(t, "secondhole") {
 		shell.Rings = append(shell.Rings, sq(13, 13, 15, 15, rapid.Bool().Draw(t, "h2cw")))
 	}
+	lholes := rapid.IntRange(0, 3).Draw(t, "lholes") == 0
+	if lholes {
+		// an L-shaped hole and a second hole in the notch of the L: the holes are disjoint but the second lies inside
+		// the bounding box of the first; the other operand goes into the second hole
+		shell = gm.G{T: gm.Polygon, Rings: [][]gm.F{sq(0, 0, 16, 16, false),
+			gm.Fs(2, 2, 2, 12, 6, 12, 6, 6, 12, 6, 12, 2, 2, 2), sq(8, 8, 12, 12, true)}}
+		if rapid.Bool().Draw(t, "lholeswap") {
+			shell.Rings[1], shell.Rings[2] = shell.Rings[2], shell.Rings[1]
+		}
+	}
 	var a gm.G = shell
-	if rapid.Bool().Draw(t, "island") {
+	if !lholes && rapid.Bool().Draw(t, "island") {
 		island := gm.G{T: gm.Polygon, Rings: [][]gm.F{sq(4, 4, 10, 10, false)}}
 		if rapid.Bool().Draw(t, "islandhole") {
 			island.Rings = append(island.Rings, sq(6, 6, 8, 8, true))
@@ -130,7 +140,12 @@ func genHolePair(t *rapid.T, cx *h.Ctx, disjointMembers bool, stats *gen.Stats) 
 	}
 	// B: a small complex placed somewhere relative to A
 	place := rapid.SampledFrom([][2]int{{3, 3}, {5, 5}, {6, 6}, {2, 2}, {0, 0}, {12, 12}, {13, 1}, {7, 3}, {3, 8}}).Draw(t, "place")
-	cb := gen.DrawComplex(t, rapid.IntRange(1, 2).Draw(t, "kb"), place)
+	kb := rapid.IntRange(1, 2).Draw(t, "kb")
+	if lholes {
+		place = rapid.SampledFrom([][2]int{{9, 9}, {8, 8}, {9, 8}, {3, 3}, {7, 7}, {12, 12}}).Draw(t, "lplace")
+		kb = 1
+	}
+	cb := gen.DrawComplex(t, kb, place)
 	tb := rapid.SampledFrom(gm.Types).Draw(t, "typeB")
 	b := cb.Geom(t, tb, 0, disjointMembers, stats)
 	// decoys: a far-away first (or middle) member in each operand, so that the member which decides the
